@@ -128,3 +128,7 @@ func VerifC01_StatefulSetUpgradeBatch() {
 		verifrt.Assert(cur <= int(ctx.DesiredPartition.IntVal), "C01.statefulset.upgrade.skipOnlyIfAlreadyThere")
 	}
 }
+
+// C11: readiness is judged against the pods the batch really calls for: the batch context's targets equal the
+// reference computed from the plan (obligations of the C01 batch-context harness of this workload kind).
+func VerifC11_StatefulSetReadinessTarget() { VerifC01_StatefulSetBatchContext() }
